@@ -89,6 +89,12 @@ type Setup struct {
 	// blobs: counters / first-frame flags to start from (IVs are drawn at execution)
 	CtrAB, CtrBA uint32 `json:",omitempty"`
 	FinAB, FinBA bool   `json:",omitempty"` // first protected frame already exchanged in that direction
+	// ReadMax >= 1: both connections deliver at most that many bytes per Read call (short reads);
+	// invisible to the model, which sees a byte stream.
+	ReadMax int `json:",omitempty"`
+	// Ctx: every stream call gets a cancellable context (the watcher path of
+	// readWithContext / writeWithContext) instead of context.Background().
+	Ctx bool `json:",omitempty"`
 }
 
 // SeenFrame is a cleartext frame as delivered by an editing relay.
@@ -215,6 +221,13 @@ func Exec(c *Case) (obs *Obs, term string) {
 	obs = &Obs{}
 	w := &world{}
 	w.ca, w.cb, w.ab, w.ba = Pair()
+	w.ca.ReadMax, w.cb.ReadMax = c.Setup.ReadMax, c.Setup.ReadMax
+	bg = context.Background()
+	if c.Setup.Ctx {
+		ctx, cancel := context.WithCancel(context.Background())
+		defer cancel()
+		bg = ctx
+	}
 	var setupTerm string
 	switch c.Setup.Kind {
 	case "plain":
